@@ -3,6 +3,8 @@ import FpVerif.Lemmas.ListGen
 import FpVerif.Lemmas.ListDen
 import FpVerif.Lemmas.IterPanic
 import FpVerif.Lemmas.ListForced
+import FpVerif.Lemmas.ListMemoPanic
+import FpVerif.Lemmas.ListQuiesce
 /-!
 # C12 (lazy `fp.List` part) — every list expression evaluates to a heap representation of its
 # denotation; memoised cells are evaluated at most once; the cursor loops of package `list` compute
@@ -17,6 +19,12 @@ definitions.
   no heap change; forcing a pending cell stores its value.
 * `started_at_most_once`: from the empty heap, whatever expression is built and whatever sequence
   of operations is executed, every cell's closure has been started at most once.
+* a closure that PANICS (`head_closure_panics`, `tail_closure_panics`, `lazy_closure_panics`,
+  `*_cell_after_panic`): `sync.Once` is done also on the panic path, so the panic propagates and the
+  cell is done with the zero value (`None` / the nil list `LV.nilIface`), started once; afterwards it
+  returns that zero value and runs nothing; every method call on the nil list is a nil dereference.
+  `running_only_while_closure_runs` / `no_cell_left_running`: no operation, returning or panicking,
+  leaves a cell `running` — the model panic `deadlock` only arises from genuine re-entrance.
 * `list_*_eq`: the loops of `list.Fold`, `FoldTry`, `FoldOption`, `FoldError`, `FoldRight`/`Reduce`,
   `ToSeq` — modelled literally with their cursor — terminate on every finite list and equal the
   list computation, for every list representation that satisfies the `fp.List` interface contract
@@ -108,6 +116,113 @@ theorem started_at_most_once (fuel : Nat) (ops : List Op) (lg : Log) :
       | toSeq l => exact pres_toSeq fuel l [] hp lg wf
       | fold f l z => exact pres_fold f fuel l z hp lg wf
   exact key ops {} lg Heap.WF.empty
+
+/-! ## a list closure that panics
+
+`fp.Memoize(f)` is `once.Do(func() { ret = f() }); return ret`.  `sync.Once` marks itself done also when
+`f` panics, and then `ret` was never assigned: the cell is DONE and holds the zero value of its type —
+`None` for `getHead`, the nil `fp.List` interface (`LV.nilIface`) for `getTail` and for the `lazy.Call`
+cells of `FlatMap`.  So after a panicking closure the cell is never started again
+(`started_at_most_once` above covers every program, also across panics) and later reads return the
+zero value; every method call on the nil list is Go's nil-dereference panic. -/
+
+/-- a head closure panics: `getHead` propagates the panic (heap and log as the closure left them) and
+    leaves the cell DONE with the zero value `None`, its start counter incremented exactly once -/
+theorem head_closure_panics (fuel c : Nat) (hp hp1 : Heap) (lg lg1 : Log) (t : HThunk) (n : Nat) (p : PanicVal)
+    (hcell : hp.hs[c]? = some (.pending t, n))
+    (hrun : runH fuel t { hp with hs := hp.hs.set! c (.running, n + 1) } lg = (.error p, hp1, lg1)) :
+    forceH (fuel + 1) c hp lg = (.error p, { hp1 with hs := hp1.hs.set! c (.done none, n + 1) }, lg1) :=
+  forceH_panic fuel c hp hp1 lg lg1 t n p hcell hrun
+
+/-- … and afterwards, for every fuel and log: the cell returns `None` and nothing runs (heap and log
+    unchanged) — the list says `IsEmpty() = true` and `Head()` panics `List.empty` (not the closure's
+    panic: the closure is not run again) -/
+theorem head_cell_after_panic (c tc : Nat) (hp1 : Heap) (n : Nat) (hc : c < hp1.hs.size) (fuel2 : Nat) (lg2 : Log) :
+    let hp2 : Heap := { hp1 with hs := hp1.hs.set! c (.done none, n + 1) }
+    forceH (fuel2 + 1) c hp2 lg2 = (.ok none, hp2, lg2) ∧
+    isEmpty (fuel2 + 2) (.adaptor c tc) hp2 lg2 = (.ok true, hp2, lg2) ∧
+    head (fuel2 + 2) (.adaptor c tc) hp2 lg2 = (.error listEmpty, hp2, lg2) :=
+  ⟨forceH_after_panic c hp1 n hc fuel2 lg2, adaptor_after_head_panic c tc hp1 n hc fuel2 lg2⟩
+
+/-- a tail closure panics: `getTail` propagates the panic and leaves the cell DONE with the zero
+    `fp.List` — the nil interface -/
+theorem tail_closure_panics (fuel c : Nat) (hp hp1 : Heap) (lg lg1 : Log) (t : TThunk) (n : Nat) (p : PanicVal)
+    (hcell : hp.ts[c]? = some (.pending t, n))
+    (hrun : runT fuel t { hp with ts := hp.ts.set! c (.running, n + 1) } lg = (.error p, hp1, lg1)) :
+    forceT (fuel + 1) c hp lg = (.error p, { hp1 with ts := hp1.ts.set! c (.done .nilIface, n + 1) }, lg1) :=
+  forceT_panic fuel c hp hp1 lg lg1 t n p hcell hrun
+
+/-- … and afterwards: `Tail()` RETURNS — the nil list, nothing runs — and every method call on that
+    result is a nil dereference that changes neither heap nor log -/
+theorem tail_cell_after_panic (hc' c : Nat) (hp1 : Heap) (n : Nat) (hc : c < hp1.ts.size) (fuel2 fuel3 : Nat) (lg2 : Log) :
+    let hp2 : Heap := { hp1 with ts := hp1.ts.set! c (.done .nilIface, n + 1) }
+    forceT (fuel2 + 1) c hp2 lg2 = (.ok .nilIface, hp2, lg2) ∧
+    tail (fuel2 + 2) (.adaptor hc' c) hp2 lg2 = (.ok .nilIface, hp2, lg2) ∧
+    isEmpty (fuel3 + 1) .nilIface hp2 lg2 = (.error nilDeref, hp2, lg2) ∧
+    head (fuel3 + 1) .nilIface hp2 lg2 = (.error nilDeref, hp2, lg2) ∧
+    tail (fuel3 + 1) .nilIface hp2 lg2 = (.error nilDeref, hp2, lg2) :=
+  ⟨forceT_after_panic c hp1 n hc fuel2 lg2, adaptor_after_tail_panic hc' c hp1 n hc fuel2 fuel3 lg2⟩
+
+/-- the `lazy.Call` cell of `FlatMap` (`fn(opt.Head())`), same story -/
+theorem lazy_closure_panics (fuel c : Nat) (hp hp1 : Heap) (lg lg1 : Log) (opt : LV) (k : FnK) (n : Nat) (p : PanicVal)
+    (hcell : hp.ls[c]? = some (.pending (opt, k), n))
+    (hrun : (do let x ← head fuel opt; applyK fuel k x : HM LV)
+      { hp with ls := hp.ls.set! c (.running, n + 1) } lg = (.error p, hp1, lg1)) :
+    forceL (fuel + 1) c hp lg = (.error p, { hp1 with ls := hp1.ls.set! c (.done .nilIface, n + 1) }, lg1) :=
+  forceL_panic fuel c hp hp1 lg lg1 opt k n p hcell hrun
+
+theorem lazy_cell_after_panic (c : Nat) (hp1 : Heap) (n : Nat) (hc : c < hp1.ls.size) (fuel2 : Nat) (lg2 : Log) :
+    let hp2 : Heap := { hp1 with ls := hp1.ls.set! c (.done .nilIface, n + 1) }
+    forceL (fuel2 + 1) c hp2 lg2 = (.ok .nilIface, hp2, lg2) :=
+  forceL_after_panic c hp1 n hc fuel2 lg2
+
+/-- the clean-up on the panic path keeps the start counters ≤ 1: from a well-formed heap, forcing any
+    cell — whether its closure returns or panics — gives a well-formed heap (this is the step of
+    `started_at_most_once` that changed with the model) -/
+theorem force_keeps_wf (fuel c : Nat) (hp : Heap) (lg : Log) (wf : hp.WF) :
+    (forceH fuel c hp lg).2.1.WF ∧ (forceT fuel c hp lg).2.1.WF ∧ (forceL fuel c hp lg).2.1.WF :=
+  ⟨(presAll fuel).forceH c hp lg wf, (presAll fuel).forceT c hp lg wf, (presAll fuel).forceL c hp lg wf⟩
+
+/-- every operation of the model (the thirteen mutually recursive functions: interface methods, forcing
+    a cell, the closure bodies, the constructors), from ANY heap, whether it returns or panics, ends with
+    exactly the cells running that were running when it started: a cell is `running` only WHILE its
+    closure runs — `sync.Once` is done on the return path and on the panic path. -/
+theorem running_only_while_closure_runs (fuel : Nat) : KeepAll fuel := keepAll fuel
+
+/-- … hence no cell is ever left `running`: from the empty heap, after ANY sequence of library calls
+    and interface operations (any list values, any callbacks — also ones that panic —, any fuel; each
+    operation returns or panics) no memo cell is in state `running`.  So the model panic `deadlock`
+    (forcing a running cell: Go's self-deadlock of `sync.Once`) can only arise from genuine re-entrance
+    inside one operation, never as an after-effect of an earlier panic.  (False for the model before
+    this work package: a panicking closure left its cell `running`.) -/
+theorem no_cell_left_running (fuel : Nat) (ops : List Op) (lg : Log) :
+    (runOps fuel ops {} lg).1.NoRunning := by
+  have key : ∀ (ops : List Op) (hp : Heap) (lg : Log), hp.NoRunning → (runOps fuel ops hp lg).1.NoRunning := by
+    intro ops
+    induction ops with
+    | nil => intro hp lg h; exact h
+    | cons op ops ih =>
+      intro hp lg h
+      simp only [runOps]
+      apply ih
+      have hA := keepAll fuel
+      cases op with
+      | isEmpty l => exact (hA.isEmpty l hp lg).noRunning h
+      | head l => exact (hA.head l hp lg).noRunning h
+      | tail l => exact (hA.tail l hp lg).noRunning h
+      | headOpt l => exact (hA.headOpt l hp lg).noRunning h
+      | eval e x => exact (hA.eval e x hp lg).noRunning h
+      | toSeq l => exact (keep_toSeq fuel l [] hp lg).noRunning h
+      | fold f l z => exact (keep_fold f fuel l z hp lg).noRunning h
+  exact key ops {} lg Heap.NoRunning.empty
+
+/-- the hypotheses of `head_closure_panics` are satisfiable: a `GenerateFrom` head cell whose generator panics -/
+example : ∃ (hp : Heap) (t : HThunk) (p : PanicVal),
+    hp.hs[0]? = some (.pending t, 0) ∧
+    runH 1 t { hp with hs := hp.hs.set! 0 (.running, 0 + 1) } [] =
+      (.error p, { hp with hs := hp.hs.set! 0 (.running, 0 + 1) }, []) := by
+  refine ⟨{ hs := #[(.pending (.gen 0 (fun _ => goPanic "boom")), 0)] }, .gen 0 (fun _ => goPanic "boom"), "boom", rfl, ?_⟩
+  rw [runH] <;> first | rfl | (intro h; cases h)
 
 /-! ## the loops of package `list` -/
 
